@@ -60,6 +60,20 @@ def renamed(atoms, bonds):
     return a2, bonds
 
 
+def renamed_descending(atoms, bonds):
+    """names whose alphabetical order is the reverse of the file order"""
+    n = len(atoms)
+    a2 = [dict(a, name=f"Z{n - k:03d}") for k, a in enumerate(atoms)]
+    return a2, bonds
+
+
+def renamed_shuffled(atoms, bonds, rng):
+    """the molecule's own names dealt out again at random"""
+    names = [a["name"] for a in atoms]
+    rng.shuffle(names)
+    return [dict(a, name=nm) for a, nm in zip(atoms, names)], bonds
+
+
 def permuted(atoms, bonds, rng):
     order = list(range(len(atoms)))
     rng.shuffle(order)
@@ -180,6 +194,9 @@ def _complex_job(job):
     open(lig, "w").write(job["mol2"])
     res = {}
     for tag, args in (("with", [f"--ligand={lig}"]), ("base", [])):
+        if tag == "with":
+            # a ligand run has already happened in this process (the written result must not remember it)
+            runner.run(["--ff=AMBER"] + job["opts"] + args + [inp, os.path.join(wd, "earlier.pqr")])
         r = runner.run(["--ff=AMBER"] + job["opts"] + args + [inp, out])
         recs = []
         if r["ok"]:
@@ -229,7 +246,7 @@ def run(ctx):
 
     files = sorted(glob.glob(os.path.join(DATA, "*.mol2")))
     if ctx.quick:
-        files = [f for f in files if os.path.getsize(f) < 9000] + [os.path.join(DATA, "1HPX-ligand.mol2")]
+        files = sorted(set([f for f in files if os.path.getsize(f) < 9000] + [os.path.join(DATA, "1HPX-ligand.mol2"), os.path.join(DATA, "adp.mol2")]))
     jobs, meta = [], []
     for f in files:
         text = open(f).read()
@@ -239,6 +256,7 @@ def run(ctx):
         pa, pb, order = permuted(atoms, bonds, rng)
         ia, ib = with_counter_ion(atoms, bonds)
         for variant, (a_, b_) in (("file", (None, None)), ("rewritten", (atoms, bonds)), ("renamed", (ra, rb)),
+                                  ("renamed-descending", renamed_descending(atoms, bonds)), ("renamed-shuffled", renamed_shuffled(atoms, bonds, rng)),
                                   ("permuted", (pa, pb)), ("counter-ion", (ia, ib))):
             t = text if variant == "file" else write_mol2(a_, b_)
             jobs.append((os.path.basename(f), t, variant))
@@ -249,7 +267,7 @@ def run(ctx):
     for (fname, text, variant), m, o in zip(jobs, meta, obs):
         ctx.evaluations += 1
         if "exc" in o:
-            if variant in ("file", "rewritten", "renamed", "permuted"):
+            if variant in ("file", "rewritten", "renamed", "renamed-descending", "renamed-shuffled", "permuted"):
                 ctx.violation({"clause": "AssignParametersSucceeds", "variant": variant}, f"{fname} {variant}: {o['exc']}", {"mol2": text})
             else:
                 ctx.drift.append({"molecule": fname, "variant": variant, "exc": o["exc"]})
@@ -272,13 +290,21 @@ def run(ctx):
         o0, m0 = v["rewritten"]
         cls0 = symmetry_class(m0["atoms"], m0["bonds"])
         key0 = sorted((cls0[a["id"]], int(round(q * 1e6))) for a, q in zip(m0["atoms"], o0["final"]))
-        for variant in ("renamed", "permuted"):
+        for variant in ("renamed", "renamed-descending", "renamed-shuffled", "permuted"):
             if variant not in v:
                 continue
             o1, m1 = v[variant]
             cls1 = symmetry_class(m1["atoms"], m1["bonds"])
             key1 = sorted((cls1[a["id"]], int(round(q * 1e6))) for a, q in zip(m1["atoms"], o1["final"]))
             same_classes = [k[0] for k in key0] == [k[0] for k in key1]
+            if variant.startswith("renamed"):
+                # names only: the same atom (same place in the file, same coordinates) must get the same charge
+                k0 = [int(round(q * 1e6)) for q in o0["final"]]
+                k1 = [int(round(q * 1e6)) for q in o1["final"]]
+                traces.append({"id": len(traces) + 1, "kind": "same", "comp": [], "formal": [], "cycles": [], "final": [],
+                               "scale1000": 0, "radii": [], "tableradii": [], "q1": k0, "q2": k1, "atoms": [],
+                               "what": f"{fname} rewritten vs {variant} (atom by atom)"})
+                ctx.evaluations += 1
             traces.append({"id": len(traces) + 1, "kind": "same", "comp": [], "formal": [], "cycles": [], "final": [],
                            "scale1000": 0, "radii": [], "tableradii": [], "q1": [k[1] for k in key0],
                            "q2": [k[1] for k in key1] if same_classes else [], "atoms": [], "what": f"{fname} rewritten vs {variant}"})
